@@ -12,8 +12,8 @@ struct Cfg {
    const char* profile;
 };
 
-const Cfg cfgs[] = {{"C01", "types"},   {"C02", "all"}, {"C04", "names"}, {"C05", "all"}, {"C06", "all"},   {"C07", "scopes"},
-                    {"C09", "all"},     {"C12", "regions"}, {"C13", "names"}, {"C14", "all"},   {"C15", "all"}, {"C16", "substs"}};
+const Cfg cfgs[] = {{"C01", "types"},   {"C02", "all"}, {"C04", "names"}, {"C05", "stability"}, {"C06", "all"},   {"C07", "scopes"},
+                    {"C09", "all"},     {"C12", "regions"}, {"C13", "names"}, {"C14", "all"},   {"C15", "derived"}, {"C16", "substs"}};
 
 std::string g_prop = "C02";
 std::string g_profile = "all";
@@ -103,6 +103,7 @@ vf::Outcome run_case(const Case& c, const vf::Options& o)
    }
    else if (p == "C06") {
       oracle_categories(w);
+      if (c.ops.size() % 16 == 3 || c.ops.size() > 1000) oracle_storage_reuse(w);   // a fixed enumeration: once in a while, and always in the zoo
       out.nontrivial = cls(out, "nodes_checked") >= 40;
    }
    else if (p == "C07") {
